@@ -2474,6 +2474,7 @@ func init() {
 			"`fields` (exhaustive sweep) and `mutations` (rapid): a case is a corpus path plus 1-3 edits (JSON pointer, set/remove/append, value) of the calculated serialised envelope; positions and their Go types come from walking the calculated Go structure by reflection (calculated members, header uuid/digest and $schema excluded). `fields` gives every Go field of type cbc.Key, cbc.Code, org.Unit, country/currency/l10n code, uuid.UUID, cal.Date/DateTime every shape of its pool once (valid shapes and shapes outside the published pattern / list), at the first corpus position of that field. `mutations` first draws a category (key, code, enumerated code, uuid, date, extension map, meta map, slice, struct, string, number, absent optional member) then a position and a value: keys from the Go definition lists (invoice/order/delivery/payment types, note keys, payment means, term keys, rounding rules, units, identity/inbox/rate/tag keys of the document's regime and addons), codes, values harvested from the same field elsewhere in the corpus, whole sub-structures of the same Go type transplanted from other corpus documents, extension keys and values from the regime/addon/catalogue definitions, meta entries, tags offered by the regime/addons, UUID versions 1-8 and other spellings google/uuid reads, dates, long/short/unicode strings, optional members set and unset, array elements appended and removed. The edited envelope is parsed, calculated and validated by the library; cases the library rejects are discarded (counted: kept-rate = 1 - discarded/evaluations); for kept cases the published schemas must accept the serialised result. "+
 			"`required_with_siblings` (exhaustive): every member serialised without omitempty is removed (once per Go field) while one absent optional sibling the schema declares is added - for each such sibling in turn (rules of the kind 'required unless ...'). `null_elements` (exhaustive): every list of the Go structure, present or not, gains a null element once per Go field. `urls` (exhaustive): every member published with format uri receives 30 URL shapes (with and without scheme, internationalised, unusual schemes, userinfo, ports, IP literals, characters outside RFC 3986, bad escapes), in place and as new website / attachment / header link elements. `absent_members` (exhaustive, once per published type and member): every member the schemas declare and a valid example does not carry is added with a small instance the schema accepts (required members only; hand-written instances for eight types whose rules go beyond their schema) and then with each constrained scalar within two member names inside it replaced by a text no pattern, format or enumeration admits - a member the library forgets to validate is written back and refused by the schema. `standalone_types` (exhaustive): for every published object type (68, most of which have no example of their own) a document of that type built from its schema (hand-written instances where the rules go beyond the schema), then with each optional member added and with each constrained scalar within two member names invalidated. "+
 			"`absent_members` / `standalone_types`: every member a schema declares and no example carries is added with a valid instance, with that instance in which one text is written in the other letter case (what the library reads in both cases the schema must accept in both), and with each constrained scalar invalidated; documents of every published object type likewise. "+
+			"`empty_extensions`: every published extension key (those of the document's addons and regime, and every key that has neither value list nor pattern) put with an empty value into every extension map of every example and at the root of the document, its parties and its tax block: an empty value is cleaned away or refused, never written out. "+
 			"Violation signature: schema-rejects:<schema short name>:<keyword>:<instance path with indices as *>; a value that fails format uri is named by what is wrong with it instead (schema-rejects:format-uri:no-scheme | non-ascii | disallowed-character | other), because the five members share one validator. "+
 			"Non-trivial (`mutations`, `fields`): the case was kept and, according to the published schema files read as data (following $ref, allOf, properties, patternProperties, items and the $schema of embedded objects), at least one edited position is governed by pattern, enum/const (incl. oneOf/anyOf of consts), an asserted format, or - for members added or removed - the parent's `required`. `corpus` / `definitions`: the document passed the library's validation and was put to the validator; `schemas`: the file exists.",
 		"format is asserted for date, uuid, date-time and uri (RFC 3339 / RFC 4122 / RFC 3986 appendix A syntax, own implementations; an IP literal is only checked for its brackets)",
@@ -2491,6 +2492,7 @@ func init() {
 	vh.Enum("null_elements", enumNullElements, judgeMutation)
 	vh.Enum("urls", enumURLs, judgeMutation)
 	vh.Enum("absent_members", enumAbsentMembers, judgeMutation)
+	vh.Enum("empty_extensions", enumEmptyExt, judgeMutation)
 	vh.Enum("standalone_types", enumStandalone, judgeStandalone)
 	vh.Rapid("mutations", 1800, 96000, genMutation, judgeMutation)
 }
